@@ -43,3 +43,5 @@ vmod!(c02);
 vmod!(c05);
 #[cfg(not(feature = "shuttle"))]
 vmod!(c06);
+#[cfg(not(feature = "shuttle"))]
+vmod!(c11);
